@@ -1,5 +1,5 @@
 (* binary64 instance: IEEE correctly rounded + - * / sqrt, comparisons. *)
-From Coq Require Import ZArith Floats.PrimFloat Uint63.
+From Coq Require Import ZArith Floats.PrimFloat Uint63 Floats.FloatOps.
 From OV Require Import Base.Num.
 Definition fz (z : Z) : float :=
   if (z <? 0)%Z then PrimFloat.opp (of_uint63 (Uint63.of_Z (- z))) else of_uint63 (Uint63.of_Z z).
@@ -19,3 +19,14 @@ Definition fclose (tol a b : float) : bool :=
   let d := PrimFloat.abs (PrimFloat.sub a b) in
   let m := if PrimFloat.ltb (fz 1) (PrimFloat.abs b) then PrimFloat.abs b else fz 1 in
   orb (PrimFloat.leb d (PrimFloat.mul tol m)) (andb (PrimFloat.eqb a b) true).
+
+(* int(x) for a finite binary64 x: mantissa / exponent decomposition, exact *)
+Definition ftrunc (x : float) : Z :=
+  let ax := PrimFloat.abs x in
+  if PrimFloat.ltb ax (fz 1) then 0%Z else
+  let '(m, e) := PrimFloat.frshiftexp ax in
+  let mant := Uint63.to_Z (PrimFloat.normfr_mantissa m) in   (* m * 2^53 *)
+  let ex := (Uint63.to_Z e - FloatOps.shift - 53)%Z in
+  let v := if (0 <=? ex)%Z then Z.shiftl mant ex else Z.shiftr mant (- ex) in
+  if PrimFloat.ltb x (fz 0) then (- v)%Z else v.
+#[export] Instance NumIF : NumI float := {| ntrunc := ftrunc |}.
